@@ -63,6 +63,8 @@ func (w *world) afterTx(c *xchain, in *intent, out *txOutcome) {
 		w.afterAck(c, in, out)
 	case "update":
 		w.afterUpdate(c, in, out)
+	case "tsssend", "tssrecv", "tssack":
+		w.afterTSS(c, in, out)
 	default:
 		w.afterExt(c, in, out)
 	}
@@ -626,7 +628,7 @@ var _ = big.NewInt
 // governance) are compared against "no tracked balance moves" unless their handler says otherwise.
 func (w *world) resync(c *xchain, in *intent, out *txOutcome) {
 	switch in.kind {
-	case "send", "recv", "ack", "update":
+	case "send", "recv", "ack", "update", "tsssend", "tssrecv", "tssack":
 		return
 	}
 	if out.ok && !in.movesValue {
